@@ -161,11 +161,12 @@ pub mod verif_clock {
     use pavex::time::Timestamp;
     use std::sync::atomic::{AtomicI64, Ordering};
     static NOW: AtomicI64 = AtomicI64::new(0);
-    pub fn set(secs: i64) {
-        NOW.store(secs, Ordering::SeqCst);
+    /// milliseconds since the epoch
+    pub fn set(ms: i64) {
+        NOW.store(ms, Ordering::SeqCst);
     }
     pub fn now() -> Timestamp {
-        Timestamp::from_second(NOW.load(Ordering::SeqCst)).expect("valid instant")
+        Timestamp::from_millisecond(NOW.load(Ordering::SeqCst)).expect("valid instant")
     }
 }
 """)
@@ -215,6 +216,8 @@ def script_from_trace(world: dict, ops: list[dict]) -> dict:
            "creation": "never_skip" if world["never_skip"] else "skip_if_empty",
            "extend_ttl": "on_state_loads_and_changes" if world["extend_on_loads"] else "on_state_changes",
            "threshold": 0.8 if world["threshold"] else None}
+    if world.get("cookie_kind"):
+        cfg["cookie_kind"] = world["cookie_kind"]
     as_map = lambda m: {k: _val(v) for k, v in zip(("a", "b"), m) if v is not None}
     store = []
     if known and world["rec_o"]:
@@ -380,17 +383,31 @@ def native_search(prep: dict, harness: str, log_path: Path, seed: int = 0) -> li
 def _memstore_script(trace: list[dict], harness: str, role: str) -> dict | None:
     stores = [l for l in trace if l.get("kind") == "store"]
     ops = [l for l in trace if l.get("kind") == "op"]
+    races = [l for l in trace if l.get("kind") == "race"]
+    as_map = lambda m: {k: _val(v) for k, v in zip(("a", "b"), m) if v is not None}
+    if stores and races:
+        # two callers: the operation under test and the other task's operation, raced natively
+        st = stores[0]
+        recs = [{"id": lab, "state": as_map(st[key]["state"]), "live": st[key]["deadline"] > st["now"], "_deadline_ms": st[key]["deadline"] * 250}
+                for lab, key in (("A", "a"), ("B", "b")) if st[key]]
+        conv = lambda o: {"name": o["name"], "id": o["id"], "to": o["to"], "state": as_map(o["state"]), "ttl_ms": o["ttl_ticks"] * 250}
+        return {"records": recs, "race": {"ours": conv(races[0]["ours"]), "other": conv(races[0]["other"])},
+                "_origin": {"harness": harness, "failed": role, "now_ms": st["now"] * 250}}
     if not stores or not ops:
         return None
     st, op = stores[0], ops[0]
-    as_map = lambda m: {k: _val(v) for k, v in zip(("a", "b"), m) if v is not None}
     recs = []
+    # the harness counts time in ticks of 250 ms; the replay script is in milliseconds
+    ms = lambda ticks: ticks * 250
     for lab, key in (("A", "a"), ("B", "b")):
         if st[key]:
             recs.append({"id": lab, "state": as_map(st[key]["state"]), "live": st[key]["deadline"] > st["now"],
-                         "_deadline": st[key]["deadline"]})
-    return {"records": recs, "op": {"name": op["name"], "id": op["id"], "to": op["to"], "state": as_map(op["state"]), "batch": op["batch"]},
-            "_origin": {"harness": harness, "failed": role, "now": st["now"]}}
+                         "_deadline_ms": ms(st[key]["deadline"])})
+    ttls = [l for l in trace if l.get("kind") == "ttl"]
+    o = {"name": op["name"], "id": op["id"], "to": op["to"], "state": as_map(op["state"]), "batch": op["batch"]}
+    if ttls:
+        o["ttl_ms"] = ms(ttls[0]["ticks"])
+    return {"records": recs, "op": o, "_origin": {"harness": harness, "failed": role, "now_ms": ms(st["now"])}}
 
 
 def confirm_memstore(pid: str, sc: Scratch, prep: dict, r, log_dir: Path) -> dict:
@@ -414,7 +431,7 @@ def confirm_memstore(pid: str, sc: Scratch, prep: dict, r, log_dir: Path) -> dic
         n += 1
         ok, detail = run_native_script(exe.parent / "memstore_native", rep)
         if ok is True:
-            return {"reproduced": True, "replay": str(rep), "role": f"{r.spec.name}|{script['op']['name']}", "detail": detail}
+            return {"reproduced": True, "replay": str(rep), "role": f"{r.spec.name}|{(script.get('op') or script['race']['ours'])['name']}", "detail": detail}
         if rep != first:
             rep.unlink(missing_ok=True)
     if n:
@@ -445,7 +462,7 @@ def _confirm_memstore_via_playback(pid: str, sc: Scratch, prep: dict, r, log_dir
     rep = rep_dir / f"{r.spec.name}-{h}.json"
     rep.write_text(json.dumps(script, indent=1) + "\n")
     ok, detail = run_native_script(exe.parent / "memstore_native", rep)
-    return {"reproduced": ok, "replay": str(rep), "role": f"{r.spec.name}|{script['op']['name']}", "detail": detail}
+    return {"reproduced": ok, "replay": str(rep), "role": f"{r.spec.name}|{(script.get('op') or script['race']['ours'])['name']}", "detail": detail}
 
 
 def replay_script(pid: str, path: Path, exe_name: str = "session_native") -> int:
